@@ -35,7 +35,7 @@ LEGAL_PREFIXES = ['', 'r', 'R', 'u', 'U']
 
 def run(ctx):
     for fn in (r1_failed_line_offset, r1_failed_lineno, r1_google_body_line, r1_freeform_regroup, r1_slice_example,
-               r1_overwrite_lineno, r1_docstring_start, r2_first_frame, r3_docstring_prefixes, r3b_trailing_comment_pattern, r3_def_line_pattern, r4_freeform_offset, r5_exec_lines_are_physical_lines, r6_zero_is_a_line_offset, r7_compile_error_line, r8_google_block_offsets_count_newlines):
+               r1_overwrite_lineno, r1_docstring_start, r2_first_frame, r3_docstring_prefixes, r3b_trailing_comment_pattern, r3_def_line_pattern, r4_freeform_offset, r5_exec_lines_are_physical_lines, r6_zero_is_a_line_offset, r7_compile_error_line, r8_google_block_offsets_count_newlines, r9_failing_line_recorded_with_the_failure):
         ctx.rep.rule(fn, ctx)
 
 
@@ -795,6 +795,53 @@ def r8_google_block_offsets_count_newlines(ctx):
                "line break there) starts a new line for the block offsets, and every line number of the blocks after it is one too large" % ctx.src(c), anchor=f.qualname)
 
 
+def r9_failing_line_recorded_with_the_failure(ctx):
+    """PAIRING: failed_line_offset() adds `failed_tb_lineno` for every failure that is not a got/want, repr or event-loop error.  So each handler of
+    DocTest.run that records such a failure (stores exc_info) also stores failed_tb_lineno on the same path -- otherwise the offset is computed
+    from None (TypeError while rendering) or from the line of an EARLIER failure of the same object; a constant stored there is 1 (the first line
+    of the part: the value is 1-based)"""
+    rr = run_roles(ctx)
+    rep = ctx.rep
+    g, f = rr.g, rr.f
+    special = {'GotWantException', 'ExtractGotReprException', 'ExistingEventLoopError'}
+    n = 0
+    for h in g.nodes:
+        if h.kind != 'handler' or h.dup:
+            continue
+        names = {x.attr if isinstance(x, ast.Attribute) else x.id for x in ast.walk(h.ast.type) if isinstance(x, (ast.Attribute, ast.Name))} if h.ast.type is not None else {'BaseException'}
+        if names & special and not (names - special - {'checker', 'exceptions'}):
+            continue
+        body = set(id(x) for x in g.nodes if any(fr.kind == 'try' and getattr(fr, 'handler', None) is h.ast for fr in x.frames))
+        exc_stores = [x for x in g.nodes if id(x) in body and x.kind == 'stmt' and not x.dup and isinstance(x.ast, ast.Assign) and any(field_name(t, 'self') == 'self.exc_info' for t in x.ast.targets)
+                      and not (isinstance(x.ast.value, ast.Constant) and x.ast.value.value is None)]
+        if not exc_stores:
+            continue
+        tb_stores = [x for x in g.nodes if id(x) in body and x.kind == 'stmt' and not x.dup and isinstance(x.ast, ast.Assign) and any(field_name(t, 'self') == 'self.failed_tb_lineno' for t in x.ast.targets)]
+        # a failure attributed to a pseudo part (`failed_part = '<IMPORT>'`) that failed_line_offset answers before it looks at the traceback line
+        pseudo = [x.ast.value.value for x in g.nodes if id(x) in body and x.kind == 'stmt' and isinstance(x.ast, ast.Assign) and any(field_name(t, 'self') == 'self.failed_part' for t in x.ast.targets)
+                  and isinstance(x.ast.value, ast.Constant) and isinstance(x.ast.value.value, str)]
+        fo = ctx.func(DT + '.failed_line_offset')
+        answered = {c.value for x in ast.walk(fo.node) if isinstance(x, ast.Compare) and isinstance(x.ops[0], (ast.Eq, ast.Is))
+                    for c in list(x.comparators) + [x.left] if isinstance(c, ast.Constant) and isinstance(c.value, str)}
+        if pseudo and set(pseudo) <= answered:
+            continue
+        for es in exc_stores:
+            n += 1
+            before = graph.path([h], lambda x: x is es, efilter=graph.normal_only, avoid=tb_stores)
+            after = graph.path(es.nsucc(), lambda x: id(x) not in body, efilter=graph.normal_only, avoid=tb_stores)
+            ok = before is None or after is None
+            rep.ob('C08.R9', ctx.loc(f, es.ast), '%s in `except %s`' % (ctx.src(es.ast, 50), ctx.src(h.ast.type, 40) if h.ast.type is not None else ''), ok,
+                   'the failing line is stored on every path that records this failure' if ok else
+                   'this failure is recorded without its line: failed_line_offset() then adds a failed_tb_lineno that is None or left over from an earlier failure', anchor=RUN)
+        for ts in tb_stores:
+            v = ts.ast.value
+            if isinstance(v, ast.Constant):
+                rep.ob('C08.R9', ctx.loc(f, ts.ast), ctx.src(ts.ast), v.value == 1,
+                       'the first line of the part (1-based)' if v.value == 1 else 'a constant failing line other than 1: the report points %s the statement that failed' % ('before' if isinstance(v.value, int) and v.value < 1 else 'past'),
+                       anchor=RUN)
+    rep.floor('C08.R9', 'recorded failures that need a traceback line', n, 2)
+
+
 # ---------------------------------------------------------------------------
 from ..selftest import fire, silent      # noqa: E402
 
@@ -803,6 +850,8 @@ SA = 'xdoctest/static_analysis.py'
 CO = 'xdoctest/core.py'
 PA = 'xdoctest/parser.py'
 VARIANTS = [
+    fire('directive-failure-recorded-without-line', 'C08.R9', (DE, "                    self.failed_tb_lineno = 1  # is this the directive line?\n", "                    pass\n")),
+    fire('directive-failure-on-line-zero', 'C08.R9', (DE, "                    self.failed_tb_lineno = 1  # is this the directive line?\n", "                    self.failed_tb_lineno = 0\n")),
     fire('google-blocks-split-with-splitlines', 'C08.R8', ('xdoctest/docstr/docscrape_google.py', "    docstr = textwrap.dedent(docstr)\n    docstr_lines = docstr.split('\\n')\n", "    docstr = textwrap.dedent(docstr)\n    docstr_lines = docstr.splitlines()\n")),
     fire('first-line-failure-has-no-line', 'C08.R6', (DE, "        offset = self.failed_line_offset()\n        if offset is None:\n", "        offset = self.failed_line_offset()\n        if not offset:\n")),
     fire('compile-error-column-taken-for-line', 'C08.R7', (DE, "getattr(ex_value, 'lineno', None) or 1", "getattr(ex_value, 'offset', None) or 1")),
